@@ -40,9 +40,24 @@ class FalsyCallable:
         return 0
 
 
+class NameEnum(str):
+    """a thread name that is an instance of a str SUBCLASS (a `class X(str, Enum)` member, say): Thread.name keeps a plain
+    str copy of it, another object"""
+
+
+def renaming_blocker(tid):
+    # the function renames the thread it runs on (for logging / debuggers), then blocks
+    threading.current_thread().name = "job-%d" % tid
+    return blocker(tid)
+
+
 async def tleaf(tid):
     # several sibling tasks run this very function, so their tasks (and their worker threads) have equal names
-    if tid % 3 == 1:
+    if tid % 5 == 3:
+        await trio.to_thread.run_sync(blocker, tid, thread_name=NameEnum("pool-worker"))
+    elif tid % 5 == 4:
+        await trio.to_thread.run_sync(renaming_blocker, tid)
+    elif tid % 3 == 1:
         # ... or the very same name object, given explicitly
         await trio.to_thread.run_sync(blocker, tid, thread_name=SHARED_THREAD_NAME)
     elif tid % 3 == 2:
